@@ -63,6 +63,16 @@ def worker(pid: str, tier: str, seed: int, shard: int, nshards: int, out: str) -
         R.inconclusive.append(f"harness error in shard {shard}: {type(exc).__name__}: {exc}\n{traceback.format_exc()[-1500:]}")
     d = R.dump()
     d["wall_s"] = time.time() - t0
+    if not __debug__:
+        # a pass under `python -O` (assert statements stripped, in the library as well): reported under names of its own so that the
+        # minimums of the ordinary pass are not met by it
+        d = {**d, "evaluations": 0, "nontrivial": [], "sets": {}, "samples": [],
+             "counters": {f"python-O:{k}": v for k, v in d["counters"].items()},
+             "monitors": {f"python-O:{k}": v for k, v in d["monitors"].items()}}
+        for v in d["violations"].values():
+            v["monitor"] = f"python-O:{v['monitor']}"
+            v["where"] = {**(v.get("where") or {}), "python_O": True}
+        d["violations"] = {f"python-O:{k}": v for k, v in d["violations"].items()}
     with open(out, "w") as fh:
         json.dump(d, fh)
     return 0
@@ -121,6 +131,13 @@ def main(argv: list[str]) -> int:
         cmd = [sys.executable, "-X", "faulthandler", "-m", "hv.runner", pid, "--worker", tier, str(seed), str(i), str(nshards), out]
         log = open(os.path.join(tmp, f"shard{i}.log"), "w")
         procs.append((i, out, log, subprocess.Popen(cmd, stdout=log, stderr=subprocess.STDOUT, cwd=VERIF)))
+    # optional second pass of the same cases in an optimised interpreter (`python -O`)
+    n_opt = int(getattr(prop, "OPTIMIZED_SHARDS", {}).get(tier, 0))
+    for j in range(n_opt):
+        out = os.path.join(tmp, f"shardO{j}.json")
+        cmd = [sys.executable, "-O", "-X", "faulthandler", "-m", "hv.runner", pid, "--worker", tier, str(seed), str(j), str(n_opt), out]
+        log = open(os.path.join(tmp, f"shardO{j}.log"), "w")
+        procs.append((f"O{j}", out, log, subprocess.Popen(cmd, stdout=log, stderr=subprocess.STDOUT, cwd=VERIF)))
     for i, out, log, p in procs:
         left = watchdog - (time.time() - t0)
         try:
